@@ -124,7 +124,7 @@ Definition g_dec_types_V2Transaction : shape := HNamed "types.V2Transaction".
 (* opaque because: enc statement for i, b := range [...]bool{ len(txn.SiacoinInputs) != 0, len(txn.SiacoinOutputs) != 0, len(txn.SiafundInputs) != 0, len(txn.SiafundOutputs) != 0, len(txn.FileContracts) != 0, len(txn.FileContractRevisions) != 0, len(txn.FileContractResolutions) != 0, len(txn.Attestations) != 0, len(txn.ArbitraryData) != 0, txn.NewFoundationAddress != nil, !txn.MinerFee.IsZero(), } { if b { fields |= 1 << i } } | dec statement if version := d.ReadUint8(); version != 2 { d.SetErr(fmt.Errorf("unsupported transaction version (%v)", version)) return } *)
 Definition g_enc_types_V2TransactionSemantics : shape := HNamed "types.V2TransactionSemantics".
 Definition g_dec_types_V2TransactionSemantics : shape := HNamed "types.V2TransactionSemantics".
-(* opaque because: enc statement nilSigs(&fc.RenterSignature, &fc.HostSignature) | dec statement nilSigs(&fc.RenterSignature, &fc.HostSignature) *)
+(* opaque because: enc  | dec  *)
 Definition g_enc_consensus_ElementAccumulator : shape := HNamed "consensus.ElementAccumulator".
 Definition g_dec_consensus_ElementAccumulator : shape := HNamed "consensus.ElementAccumulator".
 (* opaque because: enc statement for i, root := range acc.Trees { if acc.hasTreeAtHeight(i) { types.Hash256(root).EncodeTo(e) } } | dec statement for i := range acc.Trees { if acc.hasTreeAtHeight(i) { ( *types.Hash256)(&acc.Trees[i]).DecodeFrom(d) } } *)
@@ -139,6 +139,11 @@ Definition g_enc_consensus_V1TransactionSupplement : shape := (HSeq [(HSlice g_e
 Definition g_dec_consensus_V1TransactionSupplement : shape := (HSeq [(HSlice g_dec_types_SiacoinElement); (HSlice g_dec_types_SiafundElement); (HSlice g_dec_types_FileContractElement); (HSlice g_dec_consensus_V1StorageProofSupplement)]).
 Definition g_enc_consensus_V1BlockSupplement : shape := (HSeq [(HSlice g_enc_consensus_V1TransactionSupplement); (HSlice g_enc_types_FileContractElement)]).
 Definition g_dec_consensus_V1BlockSupplement : shape := (HSeq [(HSlice g_dec_consensus_V1TransactionSupplement); (HSlice g_dec_types_FileContractElement)]).
+Definition g_enc_gateway_Header : shape := (HSeq [g_enc_types_BlockID; (HFixed 8); HBytes]).
+Definition g_dec_gateway_Header : shape := (HSeq [g_dec_types_BlockID; (HFixed 8); HBytes]).
+Definition g_enc_gateway_V2BlockOutline : shape := HNamed "gateway.V2BlockOutline".
+Definition g_dec_gateway_V2BlockOutline : shape := HNamed "gateway.V2BlockOutline".
+(* opaque because: enc statement switch { case ot.Transaction != nil: txns = append(txns, *ot.Transaction) kinds = append(kinds, 0) case ot.V2Transaction != nil: v2txns = append(v2txns, *ot.V2Transaction) kinds = append(kinds, 1) default: hashes = append(hashes, ot.Hash) kinds = append(kinds, 2) } | dec statement for i := range kinds { kinds[i] = d.ReadUint8() if kinds[i] > 2 { d.SetErr(fmt.Errorf("invalid outline transaction type (%d)", kinds[i])) return } counts[kinds[i]]++ } *)
 Definition g_enc_rhp_v2_Challenge : shape := (HSeq [(HFixed 16)]).
 Definition g_dec_rhp_v2_Challenge : shape := (HSeq [(HFixed 16)]).
 Definition g_enc_rhp_v2_RPCError : shape := (HSeq [g_enc_types_Specifier; HBytes; HBytes]).
@@ -266,6 +271,8 @@ Definition g_enc_rhp_v4_Account : shape := (HSeq [(HFixed 32)]).
 Definition g_dec_rhp_v4_Account : shape := (HSeq [(HFixed 32)]).
 Definition g_enc_rhp_v4_AccountDeposit : shape := (HSeq [g_enc_rhp_v4_Account; g_enc_types_V2Currency]).
 Definition g_dec_rhp_v4_AccountDeposit : shape := (HSeq [g_dec_rhp_v4_Account; g_dec_types_V2Currency]).
+Definition g_enc_rhp_v4_AccountToken : shape := (HSeq [g_enc_types_PublicKey; g_enc_rhp_v4_Account; HTime; g_enc_types_Signature]).
+Definition g_dec_rhp_v4_AccountToken : shape := (HSeq [g_dec_types_PublicKey; g_dec_rhp_v4_Account; HTime; g_dec_types_Signature]).
 Definition g_enc_rhp_v4_HostPrices : shape := (HSeq [g_enc_types_V2Currency; g_enc_types_V2Currency; g_enc_types_V2Currency; g_enc_types_V2Currency; g_enc_types_V2Currency; g_enc_types_V2Currency; HU64; HTime; g_enc_types_Signature]).
 Definition g_dec_rhp_v4_HostPrices : shape := (HSeq [g_dec_types_V2Currency; g_dec_types_V2Currency; g_dec_types_V2Currency; g_dec_types_V2Currency; g_dec_types_V2Currency; g_dec_types_V2Currency; HU64; HTime; g_dec_types_Signature]).
 Definition g_enc_rhp_v4_HostSettings : shape := (HSeq [(HFixed 3); HBytes; g_enc_types_Address; HBool; g_enc_types_V2Currency; HU64; HU64; HU64; g_enc_rhp_v4_HostPrices]).
@@ -274,6 +281,102 @@ Definition g_enc_rhp_v4_PoolAttachment : shape := (HSeq [g_enc_rhp_v4_Account; g
 Definition g_dec_rhp_v4_PoolAttachment : shape := (HSeq [g_dec_rhp_v4_Account; g_dec_rhp_v4_Account; HTime; g_dec_types_Signature]).
 Definition g_enc_rhp_v4_PoolDetachment : shape := (HSeq [g_enc_rhp_v4_Account; g_enc_rhp_v4_Account; HTime; g_enc_types_Signature]).
 Definition g_dec_rhp_v4_PoolDetachment : shape := (HSeq [g_dec_rhp_v4_Account; g_dec_rhp_v4_Account; HTime; g_dec_types_Signature]).
+Definition g_enc_rhp_v4_RPCAccountBalanceRequest : shape := (HSeq [g_enc_rhp_v4_Account]).
+Definition g_dec_rhp_v4_RPCAccountBalanceRequest : shape := (HSeq [g_dec_rhp_v4_Account]).
+Definition g_enc_rhp_v4_RPCAccountBalanceResponse : shape := (HSeq [g_enc_types_V2Currency]).
+Definition g_dec_rhp_v4_RPCAccountBalanceResponse : shape := (HSeq [g_dec_types_V2Currency]).
+Definition g_enc_rhp_v4_RPCAppendSectorsRequest : shape := (HSeq [g_enc_rhp_v4_HostPrices; (HSlice g_enc_types_Hash256); g_enc_types_FileContractID; g_enc_types_Signature]).
+Definition g_dec_rhp_v4_RPCAppendSectorsRequest : shape := (HSeq [g_dec_rhp_v4_HostPrices; (HSlice g_dec_types_Hash256); g_dec_types_FileContractID; g_dec_types_Signature]).
+Definition g_enc_rhp_v4_RPCAppendSectorsResponse : shape := (HSeq [(HSlice HBool); (HSlice g_enc_types_Hash256); g_enc_types_Hash256]).
+Definition g_dec_rhp_v4_RPCAppendSectorsResponse : shape := (HSeq [(HSlice HBool); (HSlice g_dec_types_Hash256); g_dec_types_Hash256]).
+Definition g_enc_rhp_v4_RPCAppendSectorsSecondResponse : shape := (HSeq [g_enc_types_Signature]).
+Definition g_dec_rhp_v4_RPCAppendSectorsSecondResponse : shape := (HSeq [g_dec_types_Signature]).
+Definition g_enc_rhp_v4_RPCAppendSectorsThirdResponse : shape := (HSeq [g_enc_types_Signature]).
+Definition g_dec_rhp_v4_RPCAppendSectorsThirdResponse : shape := (HSeq [g_dec_types_Signature]).
+Definition g_enc_rhp_v4_RPCAttachPoolsRequest : shape := (HSeq [(HSlice g_enc_rhp_v4_PoolAttachment)]).
+Definition g_dec_rhp_v4_RPCAttachPoolsRequest : shape := (HSeq [(HSlice g_dec_rhp_v4_PoolAttachment)]).
+Definition g_enc_rhp_v4_RPCAttachPoolsResponse : shape := (HSeq []).
+Definition g_dec_rhp_v4_RPCAttachPoolsResponse : shape := (HSeq []).
+Definition g_enc_rhp_v4_RPCDetachPoolsRequest : shape := (HSeq [(HSlice g_enc_rhp_v4_PoolDetachment)]).
+Definition g_dec_rhp_v4_RPCDetachPoolsRequest : shape := (HSeq [(HSlice g_dec_rhp_v4_PoolDetachment)]).
+Definition g_enc_rhp_v4_RPCDetachPoolsResponse : shape := (HSeq []).
+Definition g_dec_rhp_v4_RPCDetachPoolsResponse : shape := (HSeq []).
+Definition g_enc_rhp_v4_RPCError : shape := (HSeq [HU8; HBytes]).
+Definition g_dec_rhp_v4_RPCError : shape := (HSeq [HU8; HBytes]).
+Definition g_enc_rhp_v4_RPCFormContractParams : shape := (HSeq [g_enc_types_PublicKey; g_enc_types_Address; g_enc_types_V2Currency; g_enc_types_V2Currency; HU64]).
+Definition g_dec_rhp_v4_RPCFormContractParams : shape := (HSeq [g_dec_types_PublicKey; g_dec_types_Address; g_dec_types_V2Currency; g_dec_types_V2Currency; HU64]).
+Definition g_enc_rhp_v4_RPCFormContractRequest : shape := (HSeq [g_enc_rhp_v4_HostPrices; g_enc_rhp_v4_RPCFormContractParams; g_enc_types_ChainIndex; g_enc_types_V2Currency; (HSlice g_enc_types_SiacoinElement); (HSlice g_enc_types_V2Transaction)]).
+Definition g_dec_rhp_v4_RPCFormContractRequest : shape := (HSeq [g_dec_rhp_v4_HostPrices; g_dec_rhp_v4_RPCFormContractParams; g_dec_types_ChainIndex; g_dec_types_V2Currency; (HSlice g_dec_types_SiacoinElement); (HSlice g_dec_types_V2Transaction)]).
+Definition g_enc_rhp_v4_RPCFormContractResponse : shape := (HSeq [(HSlice g_enc_types_V2SiacoinInput)]).
+Definition g_dec_rhp_v4_RPCFormContractResponse : shape := (HSeq [(HSlice g_dec_types_V2SiacoinInput)]).
+Definition g_enc_rhp_v4_RPCFormContractSecondResponse : shape := (HSeq [g_enc_types_Signature; (HSlice g_enc_types_SatisfiedPolicy)]).
+Definition g_dec_rhp_v4_RPCFormContractSecondResponse : shape := (HSeq [g_dec_types_Signature; (HSlice g_dec_types_SatisfiedPolicy)]).
+Definition g_enc_rhp_v4_RPCFormContractThirdResponse : shape := (HSeq [g_enc_types_ChainIndex; (HSlice g_enc_types_V2Transaction)]).
+Definition g_dec_rhp_v4_RPCFormContractThirdResponse : shape := (HSeq [g_dec_types_ChainIndex; (HSlice g_dec_types_V2Transaction)]).
+Definition g_enc_rhp_v4_RPCFreeSectorsRequest : shape := (HSeq [g_enc_types_FileContractID; g_enc_rhp_v4_HostPrices; (HSlice HU64); g_enc_types_Signature]).
+Definition g_dec_rhp_v4_RPCFreeSectorsRequest : shape := (HSeq [g_dec_types_FileContractID; g_dec_rhp_v4_HostPrices; (HSlice HU64); g_dec_types_Signature]).
+Definition g_enc_rhp_v4_RPCFreeSectorsResponse : shape := (HSeq [(HSlice g_enc_types_Hash256); (HSlice g_enc_types_Hash256); g_enc_types_Hash256]).
+Definition g_dec_rhp_v4_RPCFreeSectorsResponse : shape := (HSeq [(HSlice g_dec_types_Hash256); (HSlice g_dec_types_Hash256); g_dec_types_Hash256]).
+Definition g_enc_rhp_v4_RPCFreeSectorsSecondResponse : shape := (HSeq [g_enc_types_Signature]).
+Definition g_dec_rhp_v4_RPCFreeSectorsSecondResponse : shape := (HSeq [g_dec_types_Signature]).
+Definition g_enc_rhp_v4_RPCFreeSectorsThirdResponse : shape := (HSeq [g_enc_types_Signature]).
+Definition g_dec_rhp_v4_RPCFreeSectorsThirdResponse : shape := (HSeq [g_dec_types_Signature]).
+Definition g_enc_rhp_v4_RPCFundAccountsRequest : shape := (HSeq [g_enc_types_FileContractID; (HSlice g_enc_rhp_v4_AccountDeposit); g_enc_types_Signature]).
+Definition g_dec_rhp_v4_RPCFundAccountsRequest : shape := (HSeq [g_dec_types_FileContractID; (HSlice g_dec_rhp_v4_AccountDeposit); g_dec_types_Signature]).
+Definition g_enc_rhp_v4_RPCFundAccountsResponse : shape := (HSeq [(HSlice g_enc_types_V2Currency); g_enc_types_Signature]).
+Definition g_dec_rhp_v4_RPCFundAccountsResponse : shape := (HSeq [(HSlice g_dec_types_V2Currency); g_dec_types_Signature]).
+Definition g_enc_rhp_v4_RPCLatestRevisionRequest : shape := (HSeq [g_enc_types_FileContractID]).
+Definition g_dec_rhp_v4_RPCLatestRevisionRequest : shape := (HSeq [g_dec_types_FileContractID]).
+Definition g_enc_rhp_v4_RPCLatestRevisionResponse : shape := (HSeq [g_enc_types_V2FileContract; HBool; HBool]).
+Definition g_dec_rhp_v4_RPCLatestRevisionResponse : shape := (HSeq [g_dec_types_V2FileContract; HBool; HBool]).
+Definition g_enc_rhp_v4_RPCReadSectorRequest : shape := (HSeq [g_enc_rhp_v4_HostPrices; g_enc_rhp_v4_AccountToken; g_enc_types_Hash256; HU64; HU64]).
+Definition g_dec_rhp_v4_RPCReadSectorRequest : shape := (HSeq [g_dec_rhp_v4_HostPrices; g_dec_rhp_v4_AccountToken; g_dec_types_Hash256; HU64; HU64]).
+Definition g_enc_rhp_v4_RPCReadSectorResponse : shape := (HSeq [(HSlice g_enc_types_Hash256); HU64]).
+Definition g_dec_rhp_v4_RPCReadSectorResponse : shape := (HSeq [(HSlice g_dec_types_Hash256); HU64]).
+Definition g_enc_rhp_v4_RPCRefreshContractParams : shape := (HSeq [g_enc_types_FileContractID; g_enc_types_V2Currency; g_enc_types_V2Currency]).
+Definition g_dec_rhp_v4_RPCRefreshContractParams : shape := (HSeq [g_dec_types_FileContractID; g_dec_types_V2Currency; g_dec_types_V2Currency]).
+Definition g_enc_rhp_v4_RPCRefreshContractRequest : shape := (HSeq [g_enc_rhp_v4_HostPrices; g_enc_rhp_v4_RPCRefreshContractParams; g_enc_types_V2Currency; g_enc_types_ChainIndex; (HSlice g_enc_types_SiacoinElement); (HSlice g_enc_types_V2Transaction); g_enc_types_Signature]).
+Definition g_dec_rhp_v4_RPCRefreshContractRequest : shape := (HSeq [g_dec_rhp_v4_HostPrices; g_dec_rhp_v4_RPCRefreshContractParams; g_dec_types_V2Currency; g_dec_types_ChainIndex; (HSlice g_dec_types_SiacoinElement); (HSlice g_dec_types_V2Transaction); g_dec_types_Signature]).
+Definition g_enc_rhp_v4_RPCRefreshContractResponse : shape := (HSeq [(HSlice g_enc_types_V2SiacoinInput)]).
+Definition g_dec_rhp_v4_RPCRefreshContractResponse : shape := (HSeq [(HSlice g_dec_types_V2SiacoinInput)]).
+Definition g_enc_rhp_v4_RPCRefreshContractSecondResponse : shape := (HSeq [g_enc_types_Signature; g_enc_types_Signature; (HSlice g_enc_types_SatisfiedPolicy)]).
+Definition g_dec_rhp_v4_RPCRefreshContractSecondResponse : shape := (HSeq [g_dec_types_Signature; g_dec_types_Signature; (HSlice g_dec_types_SatisfiedPolicy)]).
+Definition g_enc_rhp_v4_RPCRefreshContractThirdResponse : shape := (HSeq [g_enc_types_ChainIndex; (HSlice g_enc_types_V2Transaction)]).
+Definition g_dec_rhp_v4_RPCRefreshContractThirdResponse : shape := (HSeq [g_dec_types_ChainIndex; (HSlice g_dec_types_V2Transaction)]).
+Definition g_enc_rhp_v4_RPCRenewContractParams : shape := (HSeq [g_enc_types_FileContractID; g_enc_types_V2Currency; g_enc_types_V2Currency; HU64]).
+Definition g_dec_rhp_v4_RPCRenewContractParams : shape := (HSeq [g_dec_types_FileContractID; g_dec_types_V2Currency; g_dec_types_V2Currency; HU64]).
+Definition g_enc_rhp_v4_RPCRenewContractRequest : shape := (HSeq [g_enc_rhp_v4_HostPrices; g_enc_rhp_v4_RPCRenewContractParams; g_enc_types_V2Currency; g_enc_types_ChainIndex; (HSlice g_enc_types_SiacoinElement); (HSlice g_enc_types_V2Transaction); g_enc_types_Signature]).
+Definition g_dec_rhp_v4_RPCRenewContractRequest : shape := (HSeq [g_dec_rhp_v4_HostPrices; g_dec_rhp_v4_RPCRenewContractParams; g_dec_types_V2Currency; g_dec_types_ChainIndex; (HSlice g_dec_types_SiacoinElement); (HSlice g_dec_types_V2Transaction); g_dec_types_Signature]).
+Definition g_enc_rhp_v4_RPCRenewContractResponse : shape := (HSeq [(HSlice g_enc_types_V2SiacoinInput)]).
+Definition g_dec_rhp_v4_RPCRenewContractResponse : shape := (HSeq [(HSlice g_dec_types_V2SiacoinInput)]).
+Definition g_enc_rhp_v4_RPCRenewContractSecondResponse : shape := (HSeq [g_enc_types_Signature; g_enc_types_Signature; (HSlice g_enc_types_SatisfiedPolicy)]).
+Definition g_dec_rhp_v4_RPCRenewContractSecondResponse : shape := (HSeq [g_dec_types_Signature; g_dec_types_Signature; (HSlice g_dec_types_SatisfiedPolicy)]).
+Definition g_enc_rhp_v4_RPCRenewContractThirdResponse : shape := (HSeq [g_enc_types_ChainIndex; (HSlice g_enc_types_V2Transaction)]).
+Definition g_dec_rhp_v4_RPCRenewContractThirdResponse : shape := (HSeq [g_dec_types_ChainIndex; (HSlice g_dec_types_V2Transaction)]).
+Definition g_enc_rhp_v4_RPCReplenishAccountsRequest : shape := (HSeq [(HSlice g_enc_rhp_v4_Account); g_enc_types_V2Currency; g_enc_types_FileContractID; g_enc_types_Signature]).
+Definition g_dec_rhp_v4_RPCReplenishAccountsRequest : shape := (HSeq [(HSlice g_dec_rhp_v4_Account); g_dec_types_V2Currency; g_dec_types_FileContractID; g_dec_types_Signature]).
+Definition g_enc_rhp_v4_RPCReplenishAccountsResponse : shape := (HSeq [(HSlice g_enc_rhp_v4_AccountDeposit)]).
+Definition g_dec_rhp_v4_RPCReplenishAccountsResponse : shape := (HSeq [(HSlice g_dec_rhp_v4_AccountDeposit)]).
+Definition g_enc_rhp_v4_RPCReplenishAccountsSecondResponse : shape := (HSeq [g_enc_types_Signature]).
+Definition g_dec_rhp_v4_RPCReplenishAccountsSecondResponse : shape := (HSeq [g_dec_types_Signature]).
+Definition g_enc_rhp_v4_RPCReplenishAccountsThirdResponse : shape := (HSeq [g_enc_types_Signature]).
+Definition g_dec_rhp_v4_RPCReplenishAccountsThirdResponse : shape := (HSeq [g_dec_types_Signature]).
+Definition g_enc_rhp_v4_RPCSectorRootsRequest : shape := (HSeq [g_enc_rhp_v4_HostPrices; g_enc_types_FileContractID; g_enc_types_Signature; HU64; HU64]).
+Definition g_dec_rhp_v4_RPCSectorRootsRequest : shape := (HSeq [g_dec_rhp_v4_HostPrices; g_dec_types_FileContractID; g_dec_types_Signature; HU64; HU64]).
+Definition g_enc_rhp_v4_RPCSectorRootsResponse : shape := (HSeq [(HSlice g_enc_types_Hash256); (HSlice g_enc_types_Hash256); g_enc_types_Signature]).
+Definition g_dec_rhp_v4_RPCSectorRootsResponse : shape := (HSeq [(HSlice g_dec_types_Hash256); (HSlice g_dec_types_Hash256); g_dec_types_Signature]).
+Definition g_enc_rhp_v4_RPCSettingsRequest : shape := (HSeq []).
+Definition g_dec_rhp_v4_RPCSettingsRequest : shape := (HSeq []).
+Definition g_enc_rhp_v4_RPCSettingsResponse : shape := (HSeq [g_enc_rhp_v4_HostSettings]).
+Definition g_dec_rhp_v4_RPCSettingsResponse : shape := (HSeq [g_dec_rhp_v4_HostSettings]).
+Definition g_enc_rhp_v4_RPCVerifySectorRequest : shape := (HSeq [g_enc_rhp_v4_HostPrices; g_enc_rhp_v4_AccountToken; g_enc_types_Hash256; HU64]).
+Definition g_dec_rhp_v4_RPCVerifySectorRequest : shape := (HSeq [g_dec_rhp_v4_HostPrices; g_dec_rhp_v4_AccountToken; g_dec_types_Hash256; HU64]).
+Definition g_enc_rhp_v4_RPCVerifySectorResponse : shape := (HSeq [(HSlice g_enc_types_Hash256); (HFixed 64)]).
+Definition g_dec_rhp_v4_RPCVerifySectorResponse : shape := (HSeq [(HSlice g_dec_types_Hash256); (HFixed 64)]).
+Definition g_enc_rhp_v4_RPCWriteSectorRequest : shape := (HSeq [g_enc_rhp_v4_HostPrices; g_enc_rhp_v4_AccountToken; HU64]).
+Definition g_dec_rhp_v4_RPCWriteSectorRequest : shape := (HSeq [g_dec_rhp_v4_HostPrices; g_dec_rhp_v4_AccountToken; HU64]).
+Definition g_enc_rhp_v4_RPCWriteSectorResponse : shape := (HSeq [g_enc_types_Hash256]).
+Definition g_dec_rhp_v4_RPCWriteSectorResponse : shape := (HSeq [g_dec_types_Hash256]).
 
 Definition golden_types : list (string * shape * shape) := [
   ("types.Address", g_enc_types_Address, g_dec_types_Address);
@@ -327,6 +430,7 @@ Definition golden_types : list (string * shape * shape) := [
   ("consensus.V1StorageProofSupplement", g_enc_consensus_V1StorageProofSupplement, g_dec_consensus_V1StorageProofSupplement);
   ("consensus.V1TransactionSupplement", g_enc_consensus_V1TransactionSupplement, g_dec_consensus_V1TransactionSupplement);
   ("consensus.V1BlockSupplement", g_enc_consensus_V1BlockSupplement, g_dec_consensus_V1BlockSupplement);
+  ("gateway.Header", g_enc_gateway_Header, g_dec_gateway_Header);
   ("rhp/v2.Challenge", g_enc_rhp_v2_Challenge, g_dec_rhp_v2_Challenge);
   ("rhp/v2.RPCError", g_enc_rhp_v2_RPCError, g_dec_rhp_v2_RPCError);
   ("rhp/v2.RPCFormContractAdditions", g_enc_rhp_v2_RPCFormContractAdditions, g_dec_rhp_v2_RPCFormContractAdditions);
@@ -377,10 +481,59 @@ Definition golden_types : list (string * shape * shape) := [
   ("rhp/v3.SettingsID", g_enc_rhp_v3_SettingsID, g_dec_rhp_v3_SettingsID);
   ("rhp/v4.Account", g_enc_rhp_v4_Account, g_dec_rhp_v4_Account);
   ("rhp/v4.AccountDeposit", g_enc_rhp_v4_AccountDeposit, g_dec_rhp_v4_AccountDeposit);
+  ("rhp/v4.AccountToken", g_enc_rhp_v4_AccountToken, g_dec_rhp_v4_AccountToken);
   ("rhp/v4.HostPrices", g_enc_rhp_v4_HostPrices, g_dec_rhp_v4_HostPrices);
   ("rhp/v4.HostSettings", g_enc_rhp_v4_HostSettings, g_dec_rhp_v4_HostSettings);
   ("rhp/v4.PoolAttachment", g_enc_rhp_v4_PoolAttachment, g_dec_rhp_v4_PoolAttachment);
-  ("rhp/v4.PoolDetachment", g_enc_rhp_v4_PoolDetachment, g_dec_rhp_v4_PoolDetachment)].
+  ("rhp/v4.PoolDetachment", g_enc_rhp_v4_PoolDetachment, g_dec_rhp_v4_PoolDetachment);
+  ("rhp/v4.RPCAccountBalanceRequest", g_enc_rhp_v4_RPCAccountBalanceRequest, g_dec_rhp_v4_RPCAccountBalanceRequest);
+  ("rhp/v4.RPCAccountBalanceResponse", g_enc_rhp_v4_RPCAccountBalanceResponse, g_dec_rhp_v4_RPCAccountBalanceResponse);
+  ("rhp/v4.RPCAppendSectorsRequest", g_enc_rhp_v4_RPCAppendSectorsRequest, g_dec_rhp_v4_RPCAppendSectorsRequest);
+  ("rhp/v4.RPCAppendSectorsResponse", g_enc_rhp_v4_RPCAppendSectorsResponse, g_dec_rhp_v4_RPCAppendSectorsResponse);
+  ("rhp/v4.RPCAppendSectorsSecondResponse", g_enc_rhp_v4_RPCAppendSectorsSecondResponse, g_dec_rhp_v4_RPCAppendSectorsSecondResponse);
+  ("rhp/v4.RPCAppendSectorsThirdResponse", g_enc_rhp_v4_RPCAppendSectorsThirdResponse, g_dec_rhp_v4_RPCAppendSectorsThirdResponse);
+  ("rhp/v4.RPCAttachPoolsRequest", g_enc_rhp_v4_RPCAttachPoolsRequest, g_dec_rhp_v4_RPCAttachPoolsRequest);
+  ("rhp/v4.RPCAttachPoolsResponse", g_enc_rhp_v4_RPCAttachPoolsResponse, g_dec_rhp_v4_RPCAttachPoolsResponse);
+  ("rhp/v4.RPCDetachPoolsRequest", g_enc_rhp_v4_RPCDetachPoolsRequest, g_dec_rhp_v4_RPCDetachPoolsRequest);
+  ("rhp/v4.RPCDetachPoolsResponse", g_enc_rhp_v4_RPCDetachPoolsResponse, g_dec_rhp_v4_RPCDetachPoolsResponse);
+  ("rhp/v4.RPCError", g_enc_rhp_v4_RPCError, g_dec_rhp_v4_RPCError);
+  ("rhp/v4.RPCFormContractParams", g_enc_rhp_v4_RPCFormContractParams, g_dec_rhp_v4_RPCFormContractParams);
+  ("rhp/v4.RPCFormContractRequest", g_enc_rhp_v4_RPCFormContractRequest, g_dec_rhp_v4_RPCFormContractRequest);
+  ("rhp/v4.RPCFormContractResponse", g_enc_rhp_v4_RPCFormContractResponse, g_dec_rhp_v4_RPCFormContractResponse);
+  ("rhp/v4.RPCFormContractSecondResponse", g_enc_rhp_v4_RPCFormContractSecondResponse, g_dec_rhp_v4_RPCFormContractSecondResponse);
+  ("rhp/v4.RPCFormContractThirdResponse", g_enc_rhp_v4_RPCFormContractThirdResponse, g_dec_rhp_v4_RPCFormContractThirdResponse);
+  ("rhp/v4.RPCFreeSectorsRequest", g_enc_rhp_v4_RPCFreeSectorsRequest, g_dec_rhp_v4_RPCFreeSectorsRequest);
+  ("rhp/v4.RPCFreeSectorsResponse", g_enc_rhp_v4_RPCFreeSectorsResponse, g_dec_rhp_v4_RPCFreeSectorsResponse);
+  ("rhp/v4.RPCFreeSectorsSecondResponse", g_enc_rhp_v4_RPCFreeSectorsSecondResponse, g_dec_rhp_v4_RPCFreeSectorsSecondResponse);
+  ("rhp/v4.RPCFreeSectorsThirdResponse", g_enc_rhp_v4_RPCFreeSectorsThirdResponse, g_dec_rhp_v4_RPCFreeSectorsThirdResponse);
+  ("rhp/v4.RPCFundAccountsRequest", g_enc_rhp_v4_RPCFundAccountsRequest, g_dec_rhp_v4_RPCFundAccountsRequest);
+  ("rhp/v4.RPCFundAccountsResponse", g_enc_rhp_v4_RPCFundAccountsResponse, g_dec_rhp_v4_RPCFundAccountsResponse);
+  ("rhp/v4.RPCLatestRevisionRequest", g_enc_rhp_v4_RPCLatestRevisionRequest, g_dec_rhp_v4_RPCLatestRevisionRequest);
+  ("rhp/v4.RPCLatestRevisionResponse", g_enc_rhp_v4_RPCLatestRevisionResponse, g_dec_rhp_v4_RPCLatestRevisionResponse);
+  ("rhp/v4.RPCReadSectorRequest", g_enc_rhp_v4_RPCReadSectorRequest, g_dec_rhp_v4_RPCReadSectorRequest);
+  ("rhp/v4.RPCReadSectorResponse", g_enc_rhp_v4_RPCReadSectorResponse, g_dec_rhp_v4_RPCReadSectorResponse);
+  ("rhp/v4.RPCRefreshContractParams", g_enc_rhp_v4_RPCRefreshContractParams, g_dec_rhp_v4_RPCRefreshContractParams);
+  ("rhp/v4.RPCRefreshContractRequest", g_enc_rhp_v4_RPCRefreshContractRequest, g_dec_rhp_v4_RPCRefreshContractRequest);
+  ("rhp/v4.RPCRefreshContractResponse", g_enc_rhp_v4_RPCRefreshContractResponse, g_dec_rhp_v4_RPCRefreshContractResponse);
+  ("rhp/v4.RPCRefreshContractSecondResponse", g_enc_rhp_v4_RPCRefreshContractSecondResponse, g_dec_rhp_v4_RPCRefreshContractSecondResponse);
+  ("rhp/v4.RPCRefreshContractThirdResponse", g_enc_rhp_v4_RPCRefreshContractThirdResponse, g_dec_rhp_v4_RPCRefreshContractThirdResponse);
+  ("rhp/v4.RPCRenewContractParams", g_enc_rhp_v4_RPCRenewContractParams, g_dec_rhp_v4_RPCRenewContractParams);
+  ("rhp/v4.RPCRenewContractRequest", g_enc_rhp_v4_RPCRenewContractRequest, g_dec_rhp_v4_RPCRenewContractRequest);
+  ("rhp/v4.RPCRenewContractResponse", g_enc_rhp_v4_RPCRenewContractResponse, g_dec_rhp_v4_RPCRenewContractResponse);
+  ("rhp/v4.RPCRenewContractSecondResponse", g_enc_rhp_v4_RPCRenewContractSecondResponse, g_dec_rhp_v4_RPCRenewContractSecondResponse);
+  ("rhp/v4.RPCRenewContractThirdResponse", g_enc_rhp_v4_RPCRenewContractThirdResponse, g_dec_rhp_v4_RPCRenewContractThirdResponse);
+  ("rhp/v4.RPCReplenishAccountsRequest", g_enc_rhp_v4_RPCReplenishAccountsRequest, g_dec_rhp_v4_RPCReplenishAccountsRequest);
+  ("rhp/v4.RPCReplenishAccountsResponse", g_enc_rhp_v4_RPCReplenishAccountsResponse, g_dec_rhp_v4_RPCReplenishAccountsResponse);
+  ("rhp/v4.RPCReplenishAccountsSecondResponse", g_enc_rhp_v4_RPCReplenishAccountsSecondResponse, g_dec_rhp_v4_RPCReplenishAccountsSecondResponse);
+  ("rhp/v4.RPCReplenishAccountsThirdResponse", g_enc_rhp_v4_RPCReplenishAccountsThirdResponse, g_dec_rhp_v4_RPCReplenishAccountsThirdResponse);
+  ("rhp/v4.RPCSectorRootsRequest", g_enc_rhp_v4_RPCSectorRootsRequest, g_dec_rhp_v4_RPCSectorRootsRequest);
+  ("rhp/v4.RPCSectorRootsResponse", g_enc_rhp_v4_RPCSectorRootsResponse, g_dec_rhp_v4_RPCSectorRootsResponse);
+  ("rhp/v4.RPCSettingsRequest", g_enc_rhp_v4_RPCSettingsRequest, g_dec_rhp_v4_RPCSettingsRequest);
+  ("rhp/v4.RPCSettingsResponse", g_enc_rhp_v4_RPCSettingsResponse, g_dec_rhp_v4_RPCSettingsResponse);
+  ("rhp/v4.RPCVerifySectorRequest", g_enc_rhp_v4_RPCVerifySectorRequest, g_dec_rhp_v4_RPCVerifySectorRequest);
+  ("rhp/v4.RPCVerifySectorResponse", g_enc_rhp_v4_RPCVerifySectorResponse, g_dec_rhp_v4_RPCVerifySectorResponse);
+  ("rhp/v4.RPCWriteSectorRequest", g_enc_rhp_v4_RPCWriteSectorRequest, g_dec_rhp_v4_RPCWriteSectorRequest);
+  ("rhp/v4.RPCWriteSectorResponse", g_enc_rhp_v4_RPCWriteSectorResponse, g_dec_rhp_v4_RPCWriteSectorResponse)].
 
 Definition golden_opaque : list string := [
   "types.DecoderFunc";
@@ -394,6 +547,7 @@ Definition golden_opaque : list string := [
   "types.V2TransactionSemantics";
   "consensus.ElementAccumulator";
   "consensus.State";
+  "gateway.V2BlockOutline";
   "rhp/v2.RPCReadRequest";
   "rhp/v2.RPCReadResponse";
   "rhp/v2.RPCWriteRequest";
@@ -455,19 +609,21 @@ Definition golden_fields : list (string * list string * list string) := [
   ("types.V2FileContractElement", ["ID"; "StateElement"; "V2FileContract"], ["fce.StateElement"; "fce.ID"; "fce.V2FileContract"]);
   ("types.V2FileContractExpiration", [], []);
   ("types.V2FileContractRenewal", ["FinalRenterOutput"; "FinalHostOutput"; "RenterRollover"; "HostRollover"; "NewContract"; "RenterSignature"; "HostSignature"], ["V2SiacoinOutput(ren.FinalRenterOutput)"; "V2SiacoinOutput(ren.FinalHostOutput)"; "V2Currency(ren.RenterRollover)"; "V2Currency(ren.HostRollover)"; "ren.NewContract"; "ren.RenterSignature"; "ren.HostSignature"]);
-  ("types.V2FileContractResolution", ["Parent"; "Resolution"], ["res.Parent"]);
+  ("types.V2FileContractResolution", ["Parent"; "Resolution"], ["res.Parent"; "res.Resolution"]);
   ("types.V2FileContractRevision", ["Parent"; "Revision"], ["rev.Parent"; "rev.Revision"]);
   ("types.V2SiacoinInput", ["Parent"; "SatisfiedPolicy"], ["in.Parent"; "in.SatisfiedPolicy"]);
   ("types.V2SiafundInput", ["Parent"; "ClaimAddress"; "SatisfiedPolicy"], ["in.Parent"; "in.ClaimAddress"; "in.SatisfiedPolicy"]);
   ("types.V2StorageProof", ["ProofIndex"; "Leaf"; "Proof"], ["sp.ProofIndex"; "sp.Leaf"; "sp.Proof"]);
   ("types.V2Transaction", ["SiacoinInputs"; "SiacoinOutputs"; "SiafundInputs"; "SiafundOutputs"; "FileContracts"; "FileContractRevisions"; "FileContractResolutions"; "Attestations"; "ArbitraryData"; "NewFoundationAddress"; "MinerFee"], ["version"; "fields"]);
-  ("types.V2TransactionSemantics", ["SiacoinInputs"; "SiacoinOutputs"; "SiafundInputs"; "SiafundOutputs"; "FileContracts"; "FileContractRevisions"; "FileContractResolutions"; "Attestations"; "ArbitraryData"; "NewFoundationAddress"; "MinerFee"], ["uint64(len(txn.SiacoinInputs))"; "txn.SiacoinInputs"; "in.Parent.ID"; "uint64(len(txn.SiacoinOutputs))"; "txn.SiacoinOutputs"; "V2SiacoinOutput(out)"; "uint64(len(txn.SiafundInputs))"; "txn.SiafundInputs"; "in.Parent.ID"; "uint64(len(txn.SiafundOutputs))"; "txn.SiafundOutputs"; "V2SiafundOutput(out)"; "uint64(len(txn.FileContracts))"; "txn.FileContracts"; "fc"; "uint64(len(txn.FileContractRevisions))"; "txn.FileContractRevisions"; "fcr.Parent.ID"; "fcr.Revision"; "uint64(len(txn.FileContractResolutions))"; "txn.FileContractResolutions"; "fcr.Parent.ID"; "uint64(len(txn.Attestations))"; "txn.Attestations"; "a"; "txn.ArbitraryData"; "txn.NewFoundationAddress"; "V2Currency(txn.MinerFee)"]);
+  ("types.V2TransactionSemantics", ["SiacoinInputs"; "SiacoinOutputs"; "SiafundInputs"; "SiafundOutputs"; "FileContracts"; "FileContractRevisions"; "FileContractResolutions"; "Attestations"; "ArbitraryData"; "NewFoundationAddress"; "MinerFee"], ["uint64(len(txn.SiacoinInputs))"; "txn.SiacoinInputs"; "in.Parent.ID"; "uint64(len(txn.SiacoinOutputs))"; "txn.SiacoinOutputs"; "V2SiacoinOutput(out)"; "uint64(len(txn.SiafundInputs))"; "txn.SiafundInputs"; "in.Parent.ID"; "uint64(len(txn.SiafundOutputs))"; "txn.SiafundOutputs"; "V2SiafundOutput(out)"; "uint64(len(txn.FileContracts))"; "txn.FileContracts"; "fc.RenterSignature"; "fc.HostSignature"; "fc"; "uint64(len(txn.FileContractRevisions))"; "txn.FileContractRevisions"; "fcr.Parent.ID"; "fcr.Revision.RenterSignature"; "fcr.Revision.HostSignature"; "fcr.Revision"; "uint64(len(txn.FileContractResolutions))"; "txn.FileContractResolutions"; "fcr.Parent.ID"; "renewal.NewContract.RenterSignature"; "renewal.NewContract.HostSignature"; "renewal.RenterSignature"; "renewal.HostSignature"; "sp.ProofIndex.StateElement.MerkleProof"; "fcr.Resolution"; "uint64(len(txn.Attestations))"; "txn.Attestations"; "a"; "txn.ArbitraryData"; "txn.NewFoundationAddress"; "V2Currency(txn.MinerFee)"]);
   ("consensus.ElementAccumulator", ["Trees"; "NumLeaves"], ["acc.NumLeaves"]);
   ("consensus.Work", ["n"], ["w.n"]);
   ("consensus.State", ["Network"; "Index"; "PrevTimestamps"; "Depth"; "ChildTarget"; "SiafundTaxRevenue"; "OakTime"; "OakTarget"; "FoundationSubsidyAddress"; "FoundationManagementAddress"; "TotalWork"; "Difficulty"; "OakWork"; "Elements"; "Attestations"], ["s.Index"; "s.Depth"; "s.ChildTarget"; "types.V2Currency(s.SiafundTaxRevenue)"; "uint64(s.OakTime)"; "s.OakTarget"; "s.FoundationSubsidyAddress"; "s.FoundationManagementAddress"; "s.TotalWork"; "s.Difficulty"; "s.OakWork"; "s.Elements"; "s.Attestations"]);
   ("consensus.V1StorageProofSupplement", ["FileContract"; "WindowID"], ["sps.FileContract"; "sps.WindowID"]);
   ("consensus.V1TransactionSupplement", ["SiacoinInputs"; "SiafundInputs"; "RevisedFileContracts"; "StorageProofs"], ["ts.SiacoinInputs"; "ts.SiafundInputs"; "ts.RevisedFileContracts"; "ts.StorageProofs"]);
   ("consensus.V1BlockSupplement", ["Transactions"; "ExpiringFileContracts"], ["bs.Transactions"; "bs.ExpiringFileContracts"]);
+  ("gateway.Header", ["GenesisID"; "UniqueID"; "NetAddress"], ["h.GenesisID"; "h.UniqueID"; "h.NetAddress"]);
+  ("gateway.V2BlockOutline", ["Height"; "ParentID"; "Nonce"; "Timestamp"; "MinerAddress"; "Transactions"], ["ob.Height"; "ob.ParentID"; "ob.Nonce"; "ob.Timestamp"; "ob.MinerAddress"; "ob.Transactions"; "txns"; "types.V2TransactionsMultiproof(v2txns)"; "hashes"; "kinds"; "kinds[i]"]);
   ("rhp/v2.Challenge", [], ["c"]);
   ("rhp/v2.RPCError", ["Type"; "Data"; "Description"], ["r.Type"; "r.Data"; "r.Description"]);
   ("rhp/v2.RPCFormContractAdditions", ["Parents"; "Inputs"; "Outputs"], ["r.Parents"; "r.Inputs"; "r.Outputs"]);
@@ -527,7 +683,235 @@ Definition golden_fields : list (string * list string * list string) := [
   ("rhp/v3.rpcResponse", ["err"; "data"], ["resp.err != nil"]);
   ("rhp/v4.Account", [], ["a"]);
   ("rhp/v4.AccountDeposit", ["Account"; "Amount"], ["ad.Account"; "types.V2Currency(ad.Amount)"]);
+  ("rhp/v4.AccountToken", ["HostKey"; "Account"; "ValidUntil"; "Signature"], ["at.HostKey"; "at.Account"; "at.ValidUntil"; "at.Signature"]);
   ("rhp/v4.HostPrices", ["ContractPrice"; "Collateral"; "StoragePrice"; "IngressPrice"; "EgressPrice"; "FreeSectorPrice"; "TipHeight"; "ValidUntil"; "Signature"], ["types.V2Currency(hp.ContractPrice)"; "types.V2Currency(hp.Collateral)"; "types.V2Currency(hp.StoragePrice)"; "types.V2Currency(hp.IngressPrice)"; "types.V2Currency(hp.EgressPrice)"; "types.V2Currency(hp.FreeSectorPrice)"; "hp.TipHeight"; "hp.ValidUntil"; "hp.Signature"]);
   ("rhp/v4.HostSettings", ["ProtocolVersion"; "Release"; "WalletAddress"; "AcceptingContracts"; "MaxCollateral"; "MaxContractDuration"; "RemainingStorage"; "TotalStorage"; "Prices"], ["hs.ProtocolVersion"; "hs.Release"; "hs.WalletAddress"; "hs.AcceptingContracts"; "types.V2Currency(hs.MaxCollateral)"; "hs.MaxContractDuration"; "hs.RemainingStorage"; "hs.TotalStorage"; "hs.Prices"]);
   ("rhp/v4.PoolAttachment", ["Account"; "Pool"; "ValidUntil"; "Signature"], ["a.Account"; "a.Pool"; "a.ValidUntil"; "a.Signature"]);
-  ("rhp/v4.PoolDetachment", ["Account"; "Pool"; "ValidUntil"; "Signature"], ["d.Account"; "d.Pool"; "d.ValidUntil"; "d.Signature"])].
+  ("rhp/v4.PoolDetachment", ["Account"; "Pool"; "ValidUntil"; "Signature"], ["d.Account"; "d.Pool"; "d.ValidUntil"; "d.Signature"]);
+  ("rhp/v4.RPCAccountBalanceRequest", ["Account"], ["r.Account"]);
+  ("rhp/v4.RPCAccountBalanceResponse", ["Balance"], ["types.V2Currency(r.Balance)"]);
+  ("rhp/v4.RPCAppendSectorsRequest", ["Prices"; "Sectors"; "ContractID"; "ChallengeSignature"], ["r.Prices"; "r.Sectors"; "r.ContractID"; "r.ChallengeSignature"]);
+  ("rhp/v4.RPCAppendSectorsResponse", ["Accepted"; "SubtreeRoots"; "NewMerkleRoot"], ["r.Accepted"; "r.SubtreeRoots"; "r.NewMerkleRoot"]);
+  ("rhp/v4.RPCAppendSectorsSecondResponse", ["RenterSignature"], ["r.RenterSignature"]);
+  ("rhp/v4.RPCAppendSectorsThirdResponse", ["HostSignature"], ["r.HostSignature"]);
+  ("rhp/v4.RPCAttachPoolsRequest", ["Attachments"], ["r.Attachments"]);
+  ("rhp/v4.RPCAttachPoolsResponse", [], []);
+  ("rhp/v4.RPCDetachPoolsRequest", ["Detachments"], ["r.Detachments"]);
+  ("rhp/v4.RPCDetachPoolsResponse", [], []);
+  ("rhp/v4.RPCError", ["Code"; "Description"], ["r.Code"; "r.Description"]);
+  ("rhp/v4.RPCFormContractParams", ["RenterPublicKey"; "RenterAddress"; "Allowance"; "Collateral"; "ProofHeight"], ["r.RenterPublicKey"; "r.RenterAddress"; "types.V2Currency(r.Allowance)"; "types.V2Currency(r.Collateral)"; "r.ProofHeight"]);
+  ("rhp/v4.RPCFormContractRequest", ["Prices"; "Contract"; "MinerFee"; "Basis"; "RenterInputs"; "RenterParents"], ["r.Prices"; "r.Contract"; "r.Basis"; "types.V2Currency(r.MinerFee)"; "r.RenterInputs"; "r.RenterParents"]);
+  ("rhp/v4.RPCFormContractResponse", ["HostInputs"], ["r.HostInputs"]);
+  ("rhp/v4.RPCFormContractSecondResponse", ["RenterContractSignature"; "RenterSatisfiedPolicies"], ["r.RenterContractSignature"; "r.RenterSatisfiedPolicies"]);
+  ("rhp/v4.RPCFormContractThirdResponse", ["Basis"; "TransactionSet"], ["r.Basis"; "r.TransactionSet"]);
+  ("rhp/v4.RPCFreeSectorsRequest", ["ContractID"; "Prices"; "Indices"; "ChallengeSignature"], ["r.ContractID"; "r.Prices"; "r.Indices"; "r.ChallengeSignature"]);
+  ("rhp/v4.RPCFreeSectorsResponse", ["OldSubtreeHashes"; "OldLeafHashes"; "NewMerkleRoot"], ["r.OldSubtreeHashes"; "r.OldLeafHashes"; "r.NewMerkleRoot"]);
+  ("rhp/v4.RPCFreeSectorsSecondResponse", ["RenterSignature"], ["r.RenterSignature"]);
+  ("rhp/v4.RPCFreeSectorsThirdResponse", ["HostSignature"], ["r.HostSignature"]);
+  ("rhp/v4.RPCFundAccountsRequest", ["ContractID"; "Deposits"; "RenterSignature"], ["r.ContractID"; "r.Deposits"; "r.RenterSignature"]);
+  ("rhp/v4.RPCFundAccountsResponse", ["Balances"; "HostSignature"], ["r.Balances"; "r.HostSignature"]);
+  ("rhp/v4.RPCLatestRevisionRequest", ["ContractID"], ["r.ContractID"]);
+  ("rhp/v4.RPCLatestRevisionResponse", ["Contract"; "Revisable"; "Renewed"], ["r.Contract"; "r.Revisable"; "r.Renewed"]);
+  ("rhp/v4.RPCReadSectorRequest", ["Prices"; "Token"; "Root"; "Offset"; "Length"], ["r.Prices"; "r.Token"; "r.Root"; "r.Offset"; "r.Length"]);
+  ("rhp/v4.RPCReadSectorResponse", ["Proof"; "DataLength"], ["r.Proof"; "r.DataLength"]);
+  ("rhp/v4.RPCRefreshContractParams", ["ContractID"; "Allowance"; "Collateral"], ["r.ContractID"; "types.V2Currency(r.Allowance)"; "types.V2Currency(r.Collateral)"]);
+  ("rhp/v4.RPCRefreshContractRequest", ["Prices"; "Refresh"; "MinerFee"; "Basis"; "RenterInputs"; "RenterParents"; "ChallengeSignature"], ["r.Prices"; "r.Refresh"; "types.V2Currency(r.MinerFee)"; "r.Basis"; "r.RenterInputs"; "r.RenterParents"; "r.ChallengeSignature"]);
+  ("rhp/v4.RPCRefreshContractResponse", ["HostInputs"], ["r.HostInputs"]);
+  ("rhp/v4.RPCRefreshContractSecondResponse", ["RenterRenewalSignature"; "RenterContractSignature"; "RenterSatisfiedPolicies"], ["r.RenterRenewalSignature"; "r.RenterContractSignature"; "r.RenterSatisfiedPolicies"]);
+  ("rhp/v4.RPCRefreshContractThirdResponse", ["Basis"; "TransactionSet"], ["r.Basis"; "r.TransactionSet"]);
+  ("rhp/v4.RPCRenewContractParams", ["ContractID"; "Allowance"; "Collateral"; "ProofHeight"], ["r.ContractID"; "types.V2Currency(r.Allowance)"; "types.V2Currency(r.Collateral)"; "r.ProofHeight"]);
+  ("rhp/v4.RPCRenewContractRequest", ["Prices"; "Renewal"; "MinerFee"; "Basis"; "RenterInputs"; "RenterParents"; "ChallengeSignature"], ["r.Prices"; "r.Renewal"; "types.V2Currency(r.MinerFee)"; "r.Basis"; "r.RenterInputs"; "r.RenterParents"; "r.ChallengeSignature"]);
+  ("rhp/v4.RPCRenewContractResponse", ["HostInputs"], ["r.HostInputs"]);
+  ("rhp/v4.RPCRenewContractSecondResponse", ["RenterRenewalSignature"; "RenterContractSignature"; "RenterSatisfiedPolicies"], ["r.RenterRenewalSignature"; "r.RenterContractSignature"; "r.RenterSatisfiedPolicies"]);
+  ("rhp/v4.RPCRenewContractThirdResponse", ["Basis"; "TransactionSet"], ["r.Basis"; "r.TransactionSet"]);
+  ("rhp/v4.RPCReplenishAccountsRequest", ["Accounts"; "Target"; "ContractID"; "ChallengeSignature"], ["r.Accounts"; "types.V2Currency(r.Target)"; "r.ContractID"; "r.ChallengeSignature"]);
+  ("rhp/v4.RPCReplenishAccountsResponse", ["Deposits"], ["r.Deposits"]);
+  ("rhp/v4.RPCReplenishAccountsSecondResponse", ["RenterSignature"], ["r.RenterSignature"]);
+  ("rhp/v4.RPCReplenishAccountsThirdResponse", ["HostSignature"], ["r.HostSignature"]);
+  ("rhp/v4.RPCSectorRootsRequest", ["Prices"; "ContractID"; "RenterSignature"; "Offset"; "Length"], ["r.Prices"; "r.ContractID"; "r.RenterSignature"; "r.Offset"; "r.Length"]);
+  ("rhp/v4.RPCSectorRootsResponse", ["Proof"; "Roots"; "HostSignature"], ["r.Proof"; "r.Roots"; "r.HostSignature"]);
+  ("rhp/v4.RPCSettingsRequest", [], []);
+  ("rhp/v4.RPCSettingsResponse", ["Settings"], ["r.Settings"]);
+  ("rhp/v4.RPCVerifySectorRequest", ["Prices"; "Token"; "Root"; "LeafIndex"], ["r.Prices"; "r.Token"; "r.Root"; "r.LeafIndex"]);
+  ("rhp/v4.RPCVerifySectorResponse", ["Proof"; "Leaf"], ["r.Proof"; "r.Leaf"]);
+  ("rhp/v4.RPCWriteSectorRequest", ["Prices"; "Token"; "DataLength"], ["r.Prices"; "r.Token"; "r.DataLength"]);
+  ("rhp/v4.RPCWriteSectorResponse", ["Root"], ["r.Root"])].
+
+(* every expression each encoder writes (loop variables qualified) and every field it blanks first *)
+Definition golden_written : list (string * list string * list string) := [
+  ("types.Address", ["a"], []);
+  ("types.PublicKey", ["pk"], []);
+  ("types.Signature", ["s"], []);
+  ("types.Attestation", ["a.PublicKey"; "a.Key"; "a.Value"; "a.Signature"], []);
+  ("types.AttestationID", ["id"], []);
+  ("types.BlockID", ["id"], []);
+  ("types.Hash256", ["h"], []);
+  ("types.BlockHeader", ["h.ParentID"; "h.Nonce"; "h.Timestamp"; "h.Commitment"], []);
+  ("types.ChainIndex", ["index.Height"; "index.ID"], []);
+  ("types.StateElement", ["se.LeafIndex"; "se.MerkleProof"], []);
+  ("types.ChainIndexElement", ["cie.StateElement"; "cie.ID"; "cie.ChainIndex"], []);
+  ("types.CoveredFields", ["cf.WholeTransaction"; "cf.SiacoinInputs"; "cf.SiacoinOutputs"; "cf.FileContracts"; "cf.FileContractRevisions"; "cf.StorageProofs"; "cf.SiafundInputs"; "cf.SiafundOutputs"; "cf.MinerFees"; "cf.ArbitraryData"; "cf.Signatures"], []);
+  ("types.DecoderFunc", [], []);
+  ("types.EncoderFunc", [], []);
+  ("types.V1Currency", ["bytes.TrimLeft(buf[:], '\x00')"], []);
+  ("types.V1SiacoinOutput", ["V1Currency(sco.Value)"; "sco.Address"], []);
+  ("types.FileContract", ["fc.Filesize"; "fc.FileMerkleRoot"; "fc.WindowStart"; "fc.WindowEnd"; "V1Currency(fc.Payout)"; "fc.ValidProofOutputs"; "fc.MissedProofOutputs"; "fc.UnlockHash"; "fc.RevisionNumber"], []);
+  ("types.FileContractID", ["id"], []);
+  ("types.FileContractElement", ["fce.StateElement"; "fce.ID"; "fce.FileContract"], []);
+  ("types.Specifier", ["s"], []);
+  ("types.UnlockKey", ["uk.Algorithm"; "uk.Key"], []);
+  ("types.UnlockConditions", ["uc.Timelock"; "uc.PublicKeys"; "uc.SignaturesRequired"], []);
+  ("types.FileContractRevision", ["rev.ParentID"; "rev.UnlockConditions"; "rev.FileContract.RevisionNumber"; "rev.FileContract.Filesize"; "rev.FileContract.FileMerkleRoot"; "rev.FileContract.WindowStart"; "rev.FileContract.WindowEnd"; "rev.FileContract.ValidProofOutputs"; "rev.FileContract.MissedProofOutputs"; "rev.FileContract.UnlockHash"], []);
+  ("types.FoundationAddressUpdate", ["fau.NewPrimary"; "fau.NewFailsafe"], []);
+  ("types.SpendPolicy", ["version"], []);
+  ("types.SatisfiedPolicy", ["sp.Policy"; "sp.Signatures"; "sp.Preimages"], []);
+  ("types.SiacoinOutputID", ["id"], []);
+  ("types.V2Currency", ["c.Lo"; "c.Hi"], []);
+  ("types.V2SiacoinOutput", ["V2Currency(sco.Value)"; "sco.Address"], []);
+  ("types.SiacoinElement", ["sce.StateElement"; "sce.ID"; "V2SiacoinOutput(sce.SiacoinOutput)"; "sce.MaturityHeight"], []);
+  ("types.SiacoinInput", ["in.ParentID"; "in.UnlockConditions"], []);
+  ("types.SiafundOutputID", ["id"], []);
+  ("types.V2SiafundOutput", ["sfo.Value"; "sfo.Address"], []);
+  ("types.SiafundElement", ["sfe.StateElement"; "sfe.ID"; "V2SiafundOutput(sfe.SiafundOutput)"; "V2Currency(sfe.ClaimStart)"], []);
+  ("types.SiafundInput", ["in.ParentID"; "in.UnlockConditions"; "in.ClaimAddress"], []);
+  ("types.StorageProof", ["sp.ParentID"; "sp.Leaf"; "sp.Proof"], []);
+  ("types.TransactionSignature", ["ts.ParentID"; "ts.PublicKeyIndex"; "ts.Timelock"; "ts.CoveredFields"; "ts.Signature"], []);
+  ("types.V1SiafundOutput", ["V1Currency(NewCurrency64(sfo.Value))"; "sfo.Address"; "(V1Currency{})"], []);
+  ("types.txnSansSigs", ["txn.SiacoinInputs"; "txn.SiacoinOutputs"; "txn.FileContracts"; "txn.FileContractRevisions"; "txn.StorageProofs"; "txn.SiafundInputs"; "txn.SiafundOutputs"; "txn.MinerFees"; "txn.ArbitraryData"], []);
+  ("types.Transaction", ["txnSansSigs(txn)"; "txn.Signatures"], []);
+  ("types.TransactionID", ["id"], []);
+  ("types.V1Block", ["b.ParentID"; "b.Nonce"; "b.Timestamp"; "b.MinerPayouts"; "b.Transactions"], []);
+  ("types.V2TransactionsMultiproof", ["numLeaves"], []);
+  ("types.V2BlockData", ["b.Height"; "b.Commitment"; "V2TransactionsMultiproof(b.Transactions)"], []);
+  ("types.V2Block", ["V1Block(b)"; "b.V2"], []);
+  ("types.V2FileContract", ["fc.Capacity"; "fc.Filesize"; "fc.FileMerkleRoot"; "fc.ProofHeight"; "fc.ExpirationHeight"; "V2SiacoinOutput(fc.RenterOutput)"; "V2SiacoinOutput(fc.HostOutput)"; "V2Currency(fc.MissedHostValue)"; "V2Currency(fc.TotalCollateral)"; "fc.RenterPublicKey"; "fc.HostPublicKey"; "fc.RevisionNumber"; "fc.RenterSignature"; "fc.HostSignature"], []);
+  ("types.V2FileContractElement", ["fce.StateElement"; "fce.ID"; "fce.V2FileContract"], []);
+  ("types.V2FileContractExpiration", [], []);
+  ("types.V2FileContractRenewal", ["V2SiacoinOutput(ren.FinalRenterOutput)"; "V2SiacoinOutput(ren.FinalHostOutput)"; "V2Currency(ren.RenterRollover)"; "V2Currency(ren.HostRollover)"; "ren.NewContract"; "ren.RenterSignature"; "ren.HostSignature"], []);
+  ("types.V2FileContractResolution", ["res.Parent"; "res.Resolution"], []);
+  ("types.V2FileContractRevision", ["rev.Parent"; "rev.Revision"], []);
+  ("types.V2SiacoinInput", ["in.Parent"; "in.SatisfiedPolicy"], []);
+  ("types.V2SiafundInput", ["in.Parent"; "in.ClaimAddress"; "in.SatisfiedPolicy"], []);
+  ("types.V2StorageProof", ["sp.ProofIndex"; "sp.Leaf"; "sp.Proof"], []);
+  ("types.V2Transaction", ["version"; "fields"], []);
+  ("types.V2TransactionSemantics", ["uint64(len(txn.SiacoinInputs))"; "txn.SiacoinInputs[].Parent.ID"; "uint64(len(txn.SiacoinOutputs))"; "V2SiacoinOutput(txn.SiacoinOutputs[])"; "uint64(len(txn.SiafundInputs))"; "txn.SiafundInputs[].Parent.ID"; "uint64(len(txn.SiafundOutputs))"; "V2SiafundOutput(txn.SiafundOutputs[])"; "uint64(len(txn.FileContracts))"; "txn.FileContracts[]"; "uint64(len(txn.FileContractRevisions))"; "txn.FileContractRevisions[].Parent.ID"; "txn.FileContractRevisions[].Revision"; "uint64(len(txn.FileContractResolutions))"; "txn.FileContractResolutions[].Parent.ID"; "txn.FileContractResolutions[].Resolution"; "uint64(len(txn.Attestations))"; "txn.Attestations[]"; "txn.ArbitraryData"; "txn.NewFoundationAddress"; "V2Currency(txn.MinerFee)"], ["txn.FileContracts[].RenterSignature"; "txn.FileContracts[].HostSignature"; "txn.FileContractRevisions[].Revision.RenterSignature"; "txn.FileContractRevisions[].Revision.HostSignature"; "renewal.NewContract.RenterSignature"; "renewal.NewContract.HostSignature"; "renewal.RenterSignature"; "renewal.HostSignature"; "sp.ProofIndex.StateElement.MerkleProof"]);
+  ("consensus.ElementAccumulator", ["acc.NumLeaves"], []);
+  ("consensus.Work", ["w.n"], []);
+  ("consensus.State", ["s.Index"; "s.Depth"; "s.ChildTarget"; "types.V2Currency(s.SiafundTaxRevenue)"; "uint64(s.OakTime)"; "s.OakTarget"; "s.FoundationSubsidyAddress"; "s.FoundationManagementAddress"; "s.TotalWork"; "s.Difficulty"; "s.OakWork"; "s.Elements"; "s.Attestations"], []);
+  ("consensus.V1StorageProofSupplement", ["sps.FileContract"; "sps.WindowID"], []);
+  ("consensus.V1TransactionSupplement", ["ts.SiacoinInputs"; "ts.SiafundInputs"; "ts.RevisedFileContracts"; "ts.StorageProofs"], []);
+  ("consensus.V1BlockSupplement", ["bs.Transactions"; "bs.ExpiringFileContracts"], []);
+  ("gateway.Header", ["h.GenesisID"; "h.UniqueID"; "h.NetAddress"], []);
+  ("gateway.V2BlockOutline", ["ob.Height"; "ob.ParentID"; "ob.Nonce"; "ob.Timestamp"; "ob.MinerAddress"; "txns"; "types.V2TransactionsMultiproof(v2txns)"; "hashes"; "kinds[i]"], []);
+  ("rhp/v2.Challenge", ["c"], []);
+  ("rhp/v2.RPCError", ["r.Type"; "r.Data"; "r.Description"], []);
+  ("rhp/v2.RPCFormContractAdditions", ["r.Parents"; "r.Inputs"; "r.Outputs"], []);
+  ("rhp/v2.RPCFormContractRequest", ["r.Transactions"; "r.RenterKey"], []);
+  ("rhp/v2.RPCFormContractSignatures", ["r.ContractSignatures"; "r.RevisionSignature"], []);
+  ("rhp/v2.RPCLockRequest", ["r.ContractID"; "r.Signature[:]"; "r.Timeout"], []);
+  ("rhp/v2.RPCLockResponse", ["r.Acquired"; "r.NewChallenge"; "r.Revision"; "r.Signatures"], []);
+  ("rhp/v2.RPCReadRequest", ["r.Sections"; "r.MerkleProof"; "r.RevisionNumber"; "r.ValidProofValues"; "r.MissedProofValues"; "r.Signature[:]"], []);
+  ("rhp/v2.RPCReadResponse", ["r.Signature[:]"; "r.Data"; "r.MerkleProof"], []);
+  ("rhp/v2.RPCRenewAndClearContractRequest", ["r.Transactions"; "r.RenterKey"; "r.FinalValidProofValues"; "r.FinalMissedProofValues"], []);
+  ("rhp/v2.RPCRenewAndClearContractSignatures", ["r.ContractSignatures"; "r.RevisionSignature"; "r.FinalRevisionSignature[:]"], []);
+  ("rhp/v2.RPCSectorRootsRequest", ["r.RootOffset"; "r.NumRoots"; "r.RevisionNumber"; "r.ValidProofValues"; "r.MissedProofValues"; "r.Signature[:]"], []);
+  ("rhp/v2.RPCSectorRootsResponse", ["r.Signature[:]"; "r.SectorRoots"; "r.MerkleProof"], []);
+  ("rhp/v2.RPCSettingsResponse", ["r.Settings"], []);
+  ("rhp/v2.RPCWriteMerkleProof", ["r.OldSubtreeHashes"; "r.OldLeafHashes"; "r.NewMerkleRoot"], []);
+  ("rhp/v2.RPCWriteRequest", ["r.Actions"; "r.MerkleProof"; "r.RevisionNumber"; "r.ValidProofValues"; "r.MissedProofValues"], []);
+  ("rhp/v2.RPCWriteResponse", ["r.Signature[:]"], []);
+  ("rhp/v2.loopKeyExchangeRequest", ["r.PublicKey"; "r.Ciphers"], []);
+  ("rhp/v2.loopKeyExchangeResponse", ["r.PublicKey"; "r.Signature[:]"; "r.Cipher"], []);
+  ("rhp/v2.rpcResponse", ["resp.err != nil"], []);
+  ("rhp/v3.Account", ["uk"], []);
+  ("rhp/v3.FundAccountReceipt", ["r.Host"; "r.Account"; "types.V1Currency(r.Amount)"; "r.Timestamp"], []);
+  ("rhp/v3.InstrAppendSector", ["i.SectorDataOffset"; "i.ProofRequired"], []);
+  ("rhp/v3.InstrAppendSectorRoot", ["i.MerkleRootOffset"; "i.ProofRequired"], []);
+  ("rhp/v3.InstrDropSectors", ["i.SectorCountOffset"; "i.ProofRequired"], []);
+  ("rhp/v3.InstrHasSector", ["i.MerkleRootOffset"], []);
+  ("rhp/v3.InstrReadOffset", ["i.OffsetOffset"; "i.LengthOffset"; "i.ProofRequired"], []);
+  ("rhp/v3.InstrReadRegistry", ["i.PublicKeyOffset"; "i.PublicKeyLength"; "i.TweakOffset"; "i.Version"], []);
+  ("rhp/v3.InstrReadRegistryNoVersion", ["i.PublicKeyOffset"; "i.PublicKeyLength"; "i.TweakOffset"], []);
+  ("rhp/v3.InstrReadSector", ["i.MerkleRootOffset"; "i.OffsetOffset"; "i.LengthOffset"; "i.ProofRequired"], []);
+  ("rhp/v3.InstrRevision", [], []);
+  ("rhp/v3.InstrStoreSector", ["i.DataOffset"; "i.Duration"], []);
+  ("rhp/v3.InstrSwapSector", ["i.Sector1Offset"; "i.Sector2Offset"; "i.ProofRequired"], []);
+  ("rhp/v3.InstrUpdateRegistry", ["i.TweakOffset"; "i.RevisionOffset"; "i.SignatureOffset"; "i.PublicKeyOffset"; "i.PublicKeyLength"; "i.DataOffset"; "i.DataLength"; "uint8(i.EntryType)"], []);
+  ("rhp/v3.InstrUpdateRegistryNoType", ["i.TweakOffset"; "i.RevisionOffset"; "i.SignatureOffset"; "i.PublicKeyOffset"; "i.PublicKeyLength"; "i.DataOffset"; "i.DataLength"], []);
+  ("rhp/v3.InstrUpdateSector", ["i.Offset"; "i.Length"; "i.DataOffset"; "i.ProofRequired"], []);
+  ("rhp/v3.PayByContractRequest", ["r.ContractID"; "r.RevisionNumber"; "r.ValidProofValues"; "r.MissedProofValues"; "r.RefundAccount"; "r.Signature[:]"], []);
+  ("rhp/v3.PayByEphemeralAccountRequest", ["r.Account"; "r.Expiry"; "types.V1Currency(r.Amount)"; "r.Nonce"; "r.Signature"; "uint64(r.Priority)"], []);
+  ("rhp/v3.PaymentResponse", ["r.Signature"], []);
+  ("rhp/v3.RPCAccountBalanceRequest", ["r.Account"], []);
+  ("rhp/v3.RPCAccountBalanceResponse", ["types.V1Currency(r.Balance)"], []);
+  ("rhp/v3.RPCError", ["r.Type"; "r.Data"; "r.Description"], []);
+  ("rhp/v3.RPCExecuteProgramRequest", ["r.FileContractID"; "uint64(len(r.Program))"; "buf.Bytes()"; "r.ProgramData"], []);
+  ("rhp/v3.RPCExecuteProgramResponse", ["types.V1Currency(r.AdditionalCollateral)"; "r.OutputLength"; "r.NewMerkleRoot"; "r.NewSize"; "r.Proof"; "errString"; "types.V1Currency(r.TotalCost)"; "types.V1Currency(r.FailureRefund)"], []);
+  ("rhp/v3.RPCFinalizeProgramRequest", ["r.Signature[:]"; "r.RevisionNumber"; "r.ValidProofValues"; "r.MissedProofValues"], []);
+  ("rhp/v3.RPCFinalizeProgramResponse", ["r.Signature[:]"], []);
+  ("rhp/v3.RPCFundAccountRequest", ["r.Account"], []);
+  ("rhp/v3.RPCFundAccountResponse", ["types.V1Currency(r.Balance)"; "r.Receipt"; "r.Signature"], []);
+  ("rhp/v3.RPCLatestRevisionRequest", ["r.ContractID"], []);
+  ("rhp/v3.RPCLatestRevisionResponse", ["r.Revision"], []);
+  ("rhp/v3.RPCPriceTableResponse", [], []);
+  ("rhp/v3.RPCRenewContractHostAdditions", ["r.Parents"; "r.SiacoinInputs"; "r.SiacoinOutputs"; "r.FinalRevisionSignature"], []);
+  ("rhp/v3.RPCRenewContractRequest", ["r.TransactionSet"; "r.RenterKey"; "r.FinalRevisionSignature"], []);
+  ("rhp/v3.RPCRenewSignatures", ["r.TransactionSignatures"; "r.RevisionSignature"], []);
+  ("rhp/v3.RPCUpdatePriceTableResponse", ["r.PriceTableJSON"], []);
+  ("rhp/v3.SettingsID", ["s"], []);
+  ("rhp/v3.rpcResponse", ["resp.err != nil"], []);
+  ("rhp/v4.Account", ["a"], []);
+  ("rhp/v4.AccountDeposit", ["ad.Account"; "types.V2Currency(ad.Amount)"], []);
+  ("rhp/v4.AccountToken", ["at.HostKey"; "at.Account"; "at.ValidUntil"; "at.Signature"], []);
+  ("rhp/v4.HostPrices", ["types.V2Currency(hp.ContractPrice)"; "types.V2Currency(hp.Collateral)"; "types.V2Currency(hp.StoragePrice)"; "types.V2Currency(hp.IngressPrice)"; "types.V2Currency(hp.EgressPrice)"; "types.V2Currency(hp.FreeSectorPrice)"; "hp.TipHeight"; "hp.ValidUntil"; "hp.Signature"], []);
+  ("rhp/v4.HostSettings", ["hs.ProtocolVersion"; "hs.Release"; "hs.WalletAddress"; "hs.AcceptingContracts"; "types.V2Currency(hs.MaxCollateral)"; "hs.MaxContractDuration"; "hs.RemainingStorage"; "hs.TotalStorage"; "hs.Prices"], []);
+  ("rhp/v4.PoolAttachment", ["a.Account"; "a.Pool"; "a.ValidUntil"; "a.Signature"], []);
+  ("rhp/v4.PoolDetachment", ["d.Account"; "d.Pool"; "d.ValidUntil"; "d.Signature"], []);
+  ("rhp/v4.RPCAccountBalanceRequest", ["r.Account"], []);
+  ("rhp/v4.RPCAccountBalanceResponse", ["types.V2Currency(r.Balance)"], []);
+  ("rhp/v4.RPCAppendSectorsRequest", ["r.Prices"; "r.Sectors"; "r.ContractID"; "r.ChallengeSignature"], []);
+  ("rhp/v4.RPCAppendSectorsResponse", ["r.Accepted"; "r.SubtreeRoots"; "r.NewMerkleRoot"], []);
+  ("rhp/v4.RPCAppendSectorsSecondResponse", ["r.RenterSignature"], []);
+  ("rhp/v4.RPCAppendSectorsThirdResponse", ["r.HostSignature"], []);
+  ("rhp/v4.RPCAttachPoolsRequest", ["r.Attachments"], []);
+  ("rhp/v4.RPCAttachPoolsResponse", [], []);
+  ("rhp/v4.RPCDetachPoolsRequest", ["r.Detachments"], []);
+  ("rhp/v4.RPCDetachPoolsResponse", [], []);
+  ("rhp/v4.RPCError", ["r.Code"; "r.Description"], []);
+  ("rhp/v4.RPCFormContractParams", ["r.RenterPublicKey"; "r.RenterAddress"; "types.V2Currency(r.Allowance)"; "types.V2Currency(r.Collateral)"; "r.ProofHeight"], []);
+  ("rhp/v4.RPCFormContractRequest", ["r.Prices"; "r.Contract"; "r.Basis"; "types.V2Currency(r.MinerFee)"; "r.RenterInputs"; "r.RenterParents"], []);
+  ("rhp/v4.RPCFormContractResponse", ["r.HostInputs"], []);
+  ("rhp/v4.RPCFormContractSecondResponse", ["r.RenterContractSignature"; "r.RenterSatisfiedPolicies"], []);
+  ("rhp/v4.RPCFormContractThirdResponse", ["r.Basis"; "r.TransactionSet"], []);
+  ("rhp/v4.RPCFreeSectorsRequest", ["r.ContractID"; "r.Prices"; "r.Indices"; "r.ChallengeSignature"], []);
+  ("rhp/v4.RPCFreeSectorsResponse", ["r.OldSubtreeHashes"; "r.OldLeafHashes"; "r.NewMerkleRoot"], []);
+  ("rhp/v4.RPCFreeSectorsSecondResponse", ["r.RenterSignature"], []);
+  ("rhp/v4.RPCFreeSectorsThirdResponse", ["r.HostSignature"], []);
+  ("rhp/v4.RPCFundAccountsRequest", ["r.ContractID"; "r.Deposits"; "r.RenterSignature"], []);
+  ("rhp/v4.RPCFundAccountsResponse", ["r.Balances"; "r.HostSignature"], []);
+  ("rhp/v4.RPCLatestRevisionRequest", ["r.ContractID"], []);
+  ("rhp/v4.RPCLatestRevisionResponse", ["r.Contract"; "r.Revisable"; "r.Renewed"], []);
+  ("rhp/v4.RPCReadSectorRequest", ["r.Prices"; "r.Token"; "r.Root"; "r.Offset"; "r.Length"], []);
+  ("rhp/v4.RPCReadSectorResponse", ["r.Proof"; "r.DataLength"], []);
+  ("rhp/v4.RPCRefreshContractParams", ["r.ContractID"; "types.V2Currency(r.Allowance)"; "types.V2Currency(r.Collateral)"], []);
+  ("rhp/v4.RPCRefreshContractRequest", ["r.Prices"; "r.Refresh"; "types.V2Currency(r.MinerFee)"; "r.Basis"; "r.RenterInputs"; "r.RenterParents"; "r.ChallengeSignature"], []);
+  ("rhp/v4.RPCRefreshContractResponse", ["r.HostInputs"], []);
+  ("rhp/v4.RPCRefreshContractSecondResponse", ["r.RenterRenewalSignature"; "r.RenterContractSignature"; "r.RenterSatisfiedPolicies"], []);
+  ("rhp/v4.RPCRefreshContractThirdResponse", ["r.Basis"; "r.TransactionSet"], []);
+  ("rhp/v4.RPCRenewContractParams", ["r.ContractID"; "types.V2Currency(r.Allowance)"; "types.V2Currency(r.Collateral)"; "r.ProofHeight"], []);
+  ("rhp/v4.RPCRenewContractRequest", ["r.Prices"; "r.Renewal"; "types.V2Currency(r.MinerFee)"; "r.Basis"; "r.RenterInputs"; "r.RenterParents"; "r.ChallengeSignature"], []);
+  ("rhp/v4.RPCRenewContractResponse", ["r.HostInputs"], []);
+  ("rhp/v4.RPCRenewContractSecondResponse", ["r.RenterRenewalSignature"; "r.RenterContractSignature"; "r.RenterSatisfiedPolicies"], []);
+  ("rhp/v4.RPCRenewContractThirdResponse", ["r.Basis"; "r.TransactionSet"], []);
+  ("rhp/v4.RPCReplenishAccountsRequest", ["r.Accounts"; "types.V2Currency(r.Target)"; "r.ContractID"; "r.ChallengeSignature"], []);
+  ("rhp/v4.RPCReplenishAccountsResponse", ["r.Deposits"], []);
+  ("rhp/v4.RPCReplenishAccountsSecondResponse", ["r.RenterSignature"], []);
+  ("rhp/v4.RPCReplenishAccountsThirdResponse", ["r.HostSignature"], []);
+  ("rhp/v4.RPCSectorRootsRequest", ["r.Prices"; "r.ContractID"; "r.RenterSignature"; "r.Offset"; "r.Length"], []);
+  ("rhp/v4.RPCSectorRootsResponse", ["r.Proof"; "r.Roots"; "r.HostSignature"], []);
+  ("rhp/v4.RPCSettingsRequest", [], []);
+  ("rhp/v4.RPCSettingsResponse", ["r.Settings"], []);
+  ("rhp/v4.RPCVerifySectorRequest", ["r.Prices"; "r.Token"; "r.Root"; "r.LeafIndex"], []);
+  ("rhp/v4.RPCVerifySectorResponse", ["r.Proof"; "r.Leaf"], []);
+  ("rhp/v4.RPCWriteSectorRequest", ["r.Prices"; "r.Token"; "r.DataLength"], []);
+  ("rhp/v4.RPCWriteSectorResponse", ["r.Root"], [])].
